@@ -39,13 +39,18 @@ def alphabet(kind="full", init_enum=False):
 
 
 # ---------------------------------------------------------------------------
-# state: (scopes, labels)
+# state: (scopes, labels, linkage)
 #   scopes: tuple of (kind, ords, tags); kind 'file' | 'func' | 'block'
 #           ords: sorted tuple of (name, 'typedef' | 'ordinary', subkind)
 #           tags: sorted tuple of tag names declared in that scope
 #   labels: sorted tuple of the labels of the function being defined
+#   linkage: sorted tuple of (name, 'fn' | 'obj') for the identifiers declared
+#           with external linkage so far (file-scope objects; functions declared
+#           in any scope).  Not part of the scoping reference - only used to keep
+#           histories valid C: C99 6.2.2/6.7p4 forbid `int A; ... { int A(void); }`
+#           (found by the gcc audit of the model).
 # ---------------------------------------------------------------------------
-INITIAL = ((("file", (), ()),), ())
+INITIAL = ((("file", (), ()),), (), ())
 
 
 def depth(st):
@@ -79,10 +84,21 @@ def _cur(st, name):
 
 
 def _declare(st, name, k, sub):
-    scopes, labels = st
+    scopes, labels, linkage = st
     kind, ords, tags = scopes[-1]
     ords = tuple(sorted([o for o in ords if o[0] != name] + [(name, k, sub)]))
-    return (scopes[:-1] + ((kind, ords, tags),), labels)
+    return (scopes[:-1] + ((kind, ords, tags),), labels, linkage)
+
+
+def _link(st, name, what):
+    """Record an external-linkage declaration; None if it clashes."""
+    scopes, labels, linkage = st
+    for n, w in linkage:
+        if n == name and w != what:
+            return None
+    if (name, what) in linkage:
+        return st
+    return (scopes, labels, tuple(sorted(linkage + ((name, what),))))
 
 
 def apply(st, ev, typedef_labels=False):
@@ -90,7 +106,7 @@ def apply(st, ev, typedef_labels=False):
     event here.  typedef_labels: also allow a label spelled like a visible
     typedef name (kept out of the main sweep, see checks/c04.py)."""
     k, name = ev
-    scopes, labels = st
+    scopes, labels, linkage = st
     cur = _cur(st, name) if name else None
     if k == "td":            # typedef int N;   (C11: same-type redefinition is fine)
         if cur is not None and cur[0] != "typedef":
@@ -101,13 +117,20 @@ def apply(st, ev, typedef_labels=False):
             # tentative definitions may repeat at file scope only
             if not (cur == ("ordinary", "obj") and not in_function(st)):
                 return None
+        if not in_function(st):
+            st = _link(st, name, "obj")
+            if st is None:
+                return None
         return _declare(st, name, "ordinary", "obj")
     if k == "self":          # N N;  object N of the outer typedef type N
         if cur is not None or not is_typedef(st, name):
             return None
         return _declare(st, name, "ordinary", "obj")
-    if k == "fn":            # int N(void);
+    if k == "fn":            # int N(void);   external linkage in every scope
         if cur is not None and cur != ("ordinary", "fn"):
+            return None
+        st = _link(st, name, "fn")
+        if st is None:
             return None
         return _declare(st, name, "ordinary", "fn")
     if k in ("enum", "init_enum"):   # enum {N};  /  int z[] = { sizeof(enum {N}) };
@@ -118,7 +141,7 @@ def apply(st, ev, typedef_labels=False):
         kind, ords, tags = scopes[-1]
         if name in tags:
             return None
-        return (scopes[:-1] + ((kind, ords, tuple(sorted(tags + (name,)))),), labels)
+        return (scopes[:-1] + ((kind, ords, tuple(sorted(tags + (name,)))),), labels, linkage)
     if k == "member":        # struct S {int N;};
         return st
     if k == "proto":         # void h(int N);   prototype scope ends at the ')'
@@ -128,19 +151,19 @@ def apply(st, ev, typedef_labels=False):
             return None
         if is_typedef(st, name) and not typedef_labels:
             return None
-        return (scopes, tuple(sorted(labels + (name,))))
+        return (scopes, tuple(sorted(labels + (name,))), linkage)
     if k == "open_fn":       # void g(int N) {   parameters live in the body block
         if in_function(st):
             return None
-        return (scopes + (("func", ((name, "ordinary", "param"),), ()),), ())
+        return (scopes + (("func", ((name, "ordinary", "param"),), ()),), (), linkage)
     if k == "open":
         if not in_function(st) or depth(st) >= MAX_DEPTH:
             return None
-        return (scopes + (("block", (), ()),), labels)
+        return (scopes + (("block", (), ()),), labels, linkage)
     if k == "close":
         if not in_function(st):
             return None
-        return (scopes[:-1], labels if len(scopes) > 2 else ())
+        return (scopes[:-1], labels if len(scopes) > 2 else (), linkage)
     if k == "init":          # int z[] = { 0 };   braces that are not a scope
         return st
     raise KeyError(k)
